@@ -72,6 +72,8 @@ func regTerm(reg []regSvc) string {
 	return hx.List(items)
 }
 
+var callSeq int
+
 func callName(ch grpc.ClientConnInterface, unary bool, name string, l *ranLog) string {
 	l.take()
 	var err error
@@ -86,7 +88,12 @@ func callName(ch grpc.ClientConnInterface, unary bool, name string, l *ranLog) s
 			err = ch.Invoke(context.Background(), name, &hx.Msg{}, &hx.Msg{})
 		} else {
 			var cs grpc.ClientStream
-			cs, err = ch.NewStream(context.Background(), &grpc.StreamDesc{ClientStreams: true, ServerStreams: true}, name)
+			// the client's own descriptor may carry any name (a generic client reusing one descriptor): the
+			// method is the one named by the path
+			callSeq++
+			sd := &grpc.StreamDesc{ClientStreams: true, ServerStreams: true}
+			sd.StreamName = []string{"", "M", "N", "Get", "MM", "m", "U", "nosuch"}[callSeq%8]
+			cs, err = ch.NewStream(context.Background(), sd, name)
 			if err == nil {
 				defer runtime.KeepAlive(cs)
 				cs.CloseSend()
